@@ -56,11 +56,27 @@ def finite_shape(ctx, name, arr, n, cap, case, ndim=2):
     return True
 
 
+def int_vs_float(ctx, name, xi, out_int, run_float, case):
+    """Integer-typed input must give the decomposition of the same values as floats."""
+    ctx.count('integer_inputs:' + name)
+    ref = run_float(xi.astype(float))
+    if out_int.shape != ref.shape or not np.array_equal(np.asarray(out_int, dtype=float), ref):
+        err = (np.abs(np.asarray(out_int, dtype=float) - ref).max() if out_int.shape == ref.shape else float('nan'))
+        ctx.violation('integer-input:' + name, '%s of an %s recording differs from %s of the same values as float64 (shapes %s vs %s, max diff %.3g, '
+                      'result dtype %s)' % (name, xi.dtype, name, out_int.shape, ref.shape, err, out_int.dtype), case)
+        return False
+    return True
+
+
 def check_sift(ctx, case):
     from emd import sift as S
     x, io, eo, xo = case['x'], case['imf_opts'], case['envelope_opts'], case['extrema_opts']
     kw = dict(imf_opts=io, envelope_opts=eo, extrema_opts=xo)
     base = S.sift(x.copy(), **kw)
+    if x.dtype.kind == 'i':
+        if not int_vs_float(ctx, 'sift', x, base, lambda v: S.sift(v, **kw), case):
+            return
+        x = x.astype(float)
     ctx.case(digest(x, kw, 'sift'), base.ndim == 2 and base.shape[1] >= 2)
     if not finite_shape(ctx, 'sift', base, len(x), None, case):
         return
@@ -118,6 +134,10 @@ def check_mask(ctx, case):
     kw = dict(imf_opts=io, envelope_opts=eo, extrema_opts=xo, **mk)
     base, freqs = S.mask_sift(x.copy(), max_imfs=12, ret_mask_freq=True, **kw)
     ctx.case(digest(x, kw, 'mask'), base.ndim == 2 and base.shape[1] >= 2)
+    if x.dtype.kind == 'i':
+        if not int_vs_float(ctx, 'mask_sift', x, base, lambda v: S.mask_sift(v, max_imfs=12, **kw), case):
+            return
+        x = x.astype(float)
     if not finite_shape(ctx, 'mask_sift', base, len(x), 12, case):
         return
     K = base.shape[1]
@@ -155,6 +175,8 @@ def check_ens(ctx, case):
     ek = dict(case['ens'])
     cap = case['cap']
     ctx.case(digest(x, io, eo, xo, ek, cap, case['kind']), True)
+    if np.ptp(x) == 0:
+        ctx.count('constant_inputs:' + case['kind'])
     np.random.seed(case['rng_seed'])
     if case['kind'] == 'ens':
         out = S.ensemble_sift(x.copy(), max_imfs=cap, imf_opts=io, envelope_opts=eo, extrema_opts=xo, **ek)
@@ -225,9 +247,16 @@ def gen_case(rng, variant):
     io, eo, xo = opts(rng, light)
     if eo['interp_method'] != 'splrep':
         x = x[:150]
-    if rng.random() < .3:
+    r0 = rng.random()
+    if r0 < .25:
         # amplitudes across the range the design commits to (1e-6 .. 1e6): results must stay finite
         x = x * float(gens.pick(rng, [1e-6, 1e-3, 1e3, 1e6]))
+    elif r0 < .40:
+        # "all finite signals": integer-typed recordings (raw counts); results must equal those of the same values as floats
+        x = np.round(x / max(np.abs(x).max(), 1e-12) * float(gens.pick(rng, [50, 1000]))).astype(gens.pick(rng, [np.int64, np.int32, np.int16]))
+    elif r0 < .46 and variant in ('ens', 'cens', 'sift', 'mask'):
+        # degenerate but finite: constant (zero-variance) recordings
+        x = np.full(len(x), float(gens.pick(rng, [0.0, 1.0, -3.5])))
     c = {'kind': variant, 'family': kind, 'x': x, 'imf_opts': io, 'envelope_opts': eo, 'extrema_opts': xo,
          'cap_sample': rng.integers(4, 40, 3)}
     if variant == 'mask':
@@ -244,7 +273,7 @@ def gen_case(rng, variant):
             c['x'] = x[:int(rng.integers(16, 60))]
     elif variant in ('second', 'mask_second'):
         from emd import sift as S
-        imf = S.sift(x, max_imfs=int(rng.integers(2, 5)))
+        imf = S.sift(np.asarray(x, dtype=float), max_imfs=int(rng.integers(2, 5)))
         c['IA'] = np.abs(imf) + 1
         del c['x']
         c['sift_args'] = gens.pick(rng, [None, {}, {'max_imfs': 1}, {'max_imfs': 2}, {'max_imfs': 3}, {'max_imfs': 4},
